@@ -1080,6 +1080,16 @@ def C10(ck):
                              'hint': [-1, size][ti % 2], 'shape': shape, 'seed': ck.seed * 100000 + i, 'size': size,
                              'out': os.path.join(base, 'l%05d.knz' % i)})
                 i += 1
+        # (b3) blocks larger than the internal chunk of the entropy codecs (4 MiB for FPAQ / ANS1, 16 / 32 KiB for the others): state
+        # carried from one chunk to the next (contexts, tables) is part of the format
+        for ei, e in enumerate(E_NAMES):
+            if e in ('CM', 'TPAQ', 'TPAQX') and not T:
+                continue
+            for si, shape in enumerate(('text', 'skew')):
+                size = (4 << 20) + 100001 + 16 * ei + si
+                reqs.append({'transform': 'NONE', 'entropy': e, 'block': 8 << 20, 'jobs': 1, 'ck': [0, 32][si], 'hint': -1, 'shape': shape,
+                             'seed': ck.seed * 100000 + i, 'size': size, 'out': os.path.join(base, 'l%05d.knz' % i)})
+                i += 1
         # the front ends take their work on the command line: batches small enough for the argument size limit
         enc = []
         for lo in range(0, len(reqs), 120):
@@ -1169,7 +1179,7 @@ def C10(ck):
         shutil.rmtree(base, ignore_errors=True)
     ck.cov['rule'] = ('golden: 128 streams written by the reference encoder (every transform, every entropy codec, checksum 0/32/64, the ten level presets, chains, '
                       'both BWT regimes, 8-stage chain) decoded with jobs 1 and 3, digest must equal the recorded one; live: random (input, configuration) pairs '
-                      'encoded by the reference encoder, the current decoder must output what the reference decoder outputs; container: HDR/BLK/END events '
+                      'encoded by the reference encoder (plus the size-boundary matrix and blocks larger than the internal chunks of every entropy codec), the current decoder must output what the reference decoder outputs; container: HDR/BLK/END events '
                       'judged by Trace_Format.tla against KzFormat.tla and the encoder hooks. non-trivial = golden stream, live pair on which the reference '
                       'round-trips, container stream')
     ck.assumptions += ['equivalence with the reference for ALL inputs is not decided', 'the reference snapshot builds offline with the same toolchain']
